@@ -43,6 +43,7 @@ type history struct {
 	root         rate.Limiter
 	t0           time.Time
 	t1           time.Time // after rate.New returned: the ticker was started between t0 and t1
+	hidden       rate.Limiter // black-box build only: the capacity-0 parent of the sentinel limiters
 	handles      []rate.Limiter
 	pending      []pend
 	period       time.Duration
@@ -148,8 +149,8 @@ func (h *history) op(f []string) string {
 		if h.rootClosed {
 			return "no-ticker"
 		}
-		ch := rate.VerifSentinel(h.root)
-		if !h.inWindow() { // the sentinel may have missed the tick it was meant for
+		ch := h.sentinel()
+		if ch == nil || !h.inWindow() { // no way to observe the tick, or the sentinel may have missed its tick
 			h.inconclusive = true
 			return "inconclusive"
 		}
@@ -238,7 +239,7 @@ func (h *history) window(early bool, ops []string) string {
 	if h.rootClosed {
 		return "no-ticker"
 	}
-	if !h.inWindow() {
+	if !whiteBox || !h.inWindow() { // holding the controller's lock needs the white-box build
 		h.inconclusive = true
 		return "inconclusive"
 	}
@@ -275,8 +276,8 @@ func (h *history) window(early bool, ops []string) string {
 		return "bad-op"
 	}
 	wasOpen := !h.root.Closed()
-	sentinel := rate.VerifSentinel(h.root)
-	rate.VerifLock(h.root)
+	sentinel := h.sentinel()
+	lockTree(h.root)
 	launch := func() {
 		for _, c := range calls {
 			go func(c *call) {
@@ -301,9 +302,9 @@ func (h *history) window(early bool, ops []string) string {
 	}
 	// the tick fires while the harness holds the lock; wait until the ticker goroutine has received it
 	fired := h.t1.Add(time.Duration(h.tickIdx+1) * h.period).Add(h.period / 16) // certainly after the tick has fired
-	for time.Now().Before(fired) || !rate.VerifTickConsumed(h.root) {
+	for time.Now().Before(fired) || !tickConsumed(h.root) {
 		if time.Now().After(fired.Add(h.period / 4)) {
-			rate.VerifUnlock(h.root)
+			unlockTree(h.root)
 			h.inconclusive = true
 			return "inconclusive"
 		}
@@ -313,7 +314,7 @@ func (h *history) window(early bool, ops []string) string {
 	if !early {
 		launch()
 	}
-	rate.VerifUnlock(h.root)
+	unlockTree(h.root)
 	limit := time.After(waitLimit)
 	for _, c := range calls {
 		select {
@@ -387,6 +388,7 @@ func (h *history) window(early bool, ops []string) string {
 		return "0"
 	}))
 	sb.WriteString(" last=" + h.perLimiter(func(l rate.Limiter) string { return strconv.Itoa(l.LastUsed()) }))
+	sb.WriteString(" cap=" + h.perLimiter(func(l rate.Limiter) string { return strconv.Itoa(l.Cap(false)) }))
 	return sb.String()
 }
 
